@@ -42,6 +42,9 @@ pub struct CtrlCfg {
     pub busy_low: bool,
     /// ACeP: BUSY is held asserted after POF until the next PON / reset
     pub busy_held_after_pof: bool,
+    /// vendor reference sleep sequence of the panel ends with the UC-style 0x07 0xA5 although the
+    /// controller is an SSD part (3in7)
+    pub vendor_uc_sleep: bool,
 }
 
 #[derive(Clone, Copy, Debug, PartialEq, Eq)]
@@ -564,6 +567,11 @@ impl Ctrl {
             }
             0x10 => {
                 if idx == 0 && (b & 0x03) != 0 {
+                    self.asleep = true;
+                }
+            }
+            0x07 if self.cfg.vendor_uc_sleep => {
+                if idx == 0 && b == 0xA5 {
                     self.asleep = true;
                 }
             }
